@@ -227,7 +227,8 @@ def r05_2(ctx, prog, crate):
             ok = sa == {"param:" + sp.param_name(2)} and sb == {"param:" + sp.param_name(1)} and d and d[0] == "call" and d[1].callee == "std::mem::size_of"
         ctx.check(ok, "R05.2", ["slice_ptr_index", "(ptr-base)/size_of"], "slice_ptr_index is not (element - base) / size_of::<T>()", sp.where(0))
     # writer side
-    w = prog.one("BenchContext::bench_loop_threaded", crate)
+    from .sampling import Sampling as _S
+    w = _S(prog, crate).body
     if not ctx.anchor("R05.2", "bench_loop_threaded (writer side)", 1 if w else 0, 1):
         return
     ctx.saw(w)
